@@ -5,7 +5,7 @@ use checks::c18::run_all;
 use checks::ipc::{ipc_profile, IpcCfg, IpcFmt};
 use checks::pq::{pq_profile_basic, PqAsyncFmt, PqCfg, PqFmt};
 use checks::text::{csv_profile, json_profile, CsvFmt, JsonFmt};
-use checks::gen_workload;
+use checks::{gen_workload, gen_workload_from};
 use simcore::{Ctx, Scenario, R};
 
 #[global_allocator]
@@ -24,8 +24,15 @@ fn has_dict(dt: &arrow_schema::DataType) -> bool {
 }
 
 fn ipc(ctx: &Ctx, file: bool) -> R {
-    let p = ipc_profile(ctx);
-    let mut wl = gen_workload(ctx, &p, 3, 12, true);
+    ipc_rows(ctx, file, 12)
+}
+fn ipc_rows(ctx: &Ctx, file: bool, max_rows: usize) -> R {
+    let mut p = ipc_profile(ctx);
+    if max_rows > 100 {
+        p.max_cols = 3;
+        p.max_depth = p.max_depth.min(1);
+    }
+    let mut wl = gen_workload_from(ctx, &p, 3, if max_rows > 100 { 250 } else { 0 }, max_rows, true);
     if file && wl.schema.fields().iter().any(|f| has_dict(f.data_type())) {
         // the file format cannot represent dictionary replacement between batches
         wl.batches.truncate(1);
@@ -40,9 +47,37 @@ fn ipc_file(ctx: &Ctx) -> R {
 fn ipc_stream(ctx: &Ctx) -> R {
     ipc(ctx, false)
 }
+/// Batches of several hundred rows: the writers' internal 8 KiB buffers (csv, json, std BufWriter) fill and are
+/// handed to the sink in the middle of a write() call, so a fault lands on an intermediate transfer.
+fn ipc_big(ctx: &Ctx) -> R {
+    ipc_rows(ctx, ctx.chance(1, 2, "ipcbig.file"), 600)
+}
+fn csv_big(ctx: &Ctx) -> R {
+    csv_rows(ctx, false, 600)
+}
+fn json_big(ctx: &Ctx) -> R {
+    let mut p = json_profile(ctx);
+    p.max_cols = 3;
+    let wl = gen_workload_from(ctx, &p, 2, 250, 600, true);
+    let cfg = JsonFmt::gen_cfg(ctx);
+    run_all(ctx, &JsonFmt { wl, cfg })
+}
+fn avro_big(ctx: &Ctx) -> R {
+    let mut p = avro_profile(ctx);
+    p.max_cols = 3;
+    let wl = gen_workload_from(ctx, &p, 2, 250, 600, true);
+    let cfg = AvroFmt::gen_cfg(ctx, true);
+    run_all(ctx, &AvroFmt::new(wl, cfg))
+}
 fn csv_with(ctx: &Ctx, into_inner: bool) -> R {
-    let p = csv_profile(ctx);
-    let wl = gen_workload(ctx, &p, 3, 12, true);
+    csv_rows(ctx, into_inner, 12)
+}
+fn csv_rows(ctx: &Ctx, into_inner: bool, max_rows: usize) -> R {
+    let mut p = csv_profile(ctx);
+    if max_rows > 100 {
+        p.max_cols = 3;
+    }
+    let wl = gen_workload_from(ctx, &p, 3, if max_rows > 100 { 250 } else { 0 }, max_rows, true);
     let cfg = CsvFmt::gen_cfg(ctx);
     run_all(ctx, &CsvFmt { wl, cfg, into_inner })
 }
@@ -211,6 +246,10 @@ fn main() {
             Scenario { name: "avro_soe", runs_quick: 150, runs_thorough: 3000, f: avro_soe },
             Scenario { name: "parquet", runs_quick: 150, runs_thorough: 4000, f: parquet },
             Scenario { name: "parquet_big", runs_quick: 40, runs_thorough: 800, f: parquet_big },
+            Scenario { name: "ipc_big", runs_quick: 30, runs_thorough: 600, f: ipc_big },
+            Scenario { name: "csv_big", runs_quick: 30, runs_thorough: 600, f: csv_big },
+            Scenario { name: "json_big", runs_quick: 30, runs_thorough: 600, f: json_big },
+            Scenario { name: "avro_big", runs_quick: 30, runs_thorough: 600, f: avro_big },
             Scenario { name: "parquet_async", runs_quick: 120, runs_thorough: 3000, f: parquet_async },
             Scenario { name: "parquet_spill", runs_quick: 200, runs_thorough: 5000, f: parquet_spill },
         ],
